@@ -72,6 +72,23 @@ var varKinds = []*Kind{
 		p.Blk(s.Ch[0])
 		p.W("}")
 	}},
+	// post statements live in the scope of the loop header, not of the body: a body-level x := must not leak into them
+	{Name: "ForPostYX", Arity: 1, Loop: true, Yields: true, Print: func(p *Printer, s *Stmt) {
+		p.W("for n := 0; n < 2; %s {", p.Y("c.W("+itoa(p.ID())+", x)"))
+		p.In()
+		p.W("n++")
+		p.Out()
+		p.Blk(s.Ch[0])
+		p.W("}")
+	}},
+	{Name: "ForPostUpd", Arity: 1, Loop: true, Print: func(p *Printer, s *Stmt) {
+		p.W("for n := 0; n < 2; x = x*5 + %d {", p.ID())
+		p.In()
+		p.W("n++")
+		p.Out()
+		p.Blk(s.Ch[0])
+		p.W("}")
+	}},
 	{Name: "SwShadow", Arity: 2, Switch: true, Print: func(p *Printer, s *Stmt) {
 		p.W("switch x := x + %d; x %% 2 {", p.ID())
 		p.W("case 0:")
